@@ -50,6 +50,8 @@ Definition sflush (s : sst) : sst :=
   | SLzy log _ u => SLzy [] true (swrite u log)
   | _ => s
   end.
+(* InitUnderlyingDb: from now on the lazy flushable is its produced parent overlaid with the log *)
+Definition sinit (s : sst) : sst := match s with SLzy log _ u => SLzy log true u | _ => s end.
 Definition sdrop (s : sst) : sst :=
   match s with SFlu log u => SFlu [] u | SLzy log i u => SLzy [] i u | _ => s end.
 Definition snfp (s : sst) : option nat :=
@@ -141,6 +143,7 @@ Definition spec_run_op1 (r : sstate) (o : op) : sstate * list obs :=
       (sset_lives r (set_nth i (Some (kv_iterate (sview (sh_view h s)) (ob p) (ob s0))) None (ss_lives r)), [])
   | OLNext i n => let '(l, out) := live_next (ss_lives r) i n in (sset_lives r l, [out])
   | OLRel i => (sset_lives r (set_nth i None None (ss_lives r)), [])
+  | OInit d => (sset_store r (supd d sinit s), [])
   end.
 
 (* an iterator created at state s and drained later (after flushes/drops under [lsafe], reads,
